@@ -1484,17 +1484,27 @@ class Real(base.SimpleAsn1Type):
                 raise OverflowError('int too large to convert to float')
 
             if exponent < -300:
-                if exponent < -8192:
-                    # far below the smallest float for any mantissa
-                    # that fits a substrate
-                    return mantissa * 0.0
+                if (exponent < -8192 and abs(mantissa).bit_length() +
+                        exponent * (base == 2 and 1 or 3) < -1100):
+                    # the value (below 2 ** that sum) is far below the
+                    # smallest float: do not compute the power
+                    return -0.0 if mantissa < 0 else 0.0
 
                 # the power alone leaves the float range (or its full
                 # precision) long before the value does: one correctly
                 # rounded division instead
                 return mantissa / pow(base, -exponent)
 
-            return float(mantissa * pow(base, exponent))
+            try:
+                return float(mantissa * pow(base, exponent))
+
+            except OverflowError:
+                if exponent >= 0:
+                    raise
+
+                # the mantissa alone is beyond the float range, the
+                # value need not be
+                return mantissa / pow(base, -exponent)
 
     def __abs__(self):
         return self.clone(abs(float(self)))
